@@ -1,4 +1,5 @@
 import XyzProofs.Props.C05
+import XyzProofs.Lemmas.TwoMode
 /-!
 # The Harvester's storage methods: the hand-written model IS the translated source (state skeletons)
 
@@ -185,8 +186,8 @@ theorem hvAddDs_eq_spec {S D G E : Type} (o : StoreOps S D G E) (dataNameNone sy
      · simp [addDsTail, hm]
      · rcases ow with _ | _ | _ <;> simp [addDsTail, hm, owKind] <;> rfl
      done)
-  | (have e1 : @Gen.hvLoadFull = @Gen.Default.hvLoadFull := rfl
-     have e2 : @Gen.hvSaveFull = @Gen.Default.hvSaveFull := rfl
+  | (have e1 : @Gen.hvLoadFull = @Gen.Default.hvLoadFull := by same_gen [Gen.hvLoadFull, Gen.Default.hvLoadFull]
+     have e2 : @Gen.hvSaveFull = @Gen.Default.hvSaveFull := by same_gen [Gen.hvSaveFull, Gen.Default.hvSaveFull]
      simp only [Gen.hvAddDs, Gen.Default.hvAddDs, addDsSpec, stBind_pure, e1, e2]
      congr 1
      funext st1
